@@ -564,6 +564,61 @@ def rule_import_flag_reaches(ctx, rep, rule_id="R-IMPORT-FLAG-REACHES"):
         raise AnalysisError("no import scheduled under a flag found (1 confirmed by hand: fix-mutable-params)")
 
 
+# node kinds a hook may delete outright, each confirmed by reading: what disappears binds no name that other code can still read -- or the
+# hook's own rule decides when it may (imports: R-IMPORT-REMOVAL-OWNER; `global`: R-GLOBAL-REMOVAL-SCOPE; use-walrus-if moves the binding
+# into the `if` test; RemoveUnusedVariables only acts on assignments libcst reports as unread)
+REMOVABLE_KINDS = {
+    "Break": "no binding", "Continue": "no binding", "Pass": "no binding", "Else": "emptied else clause: its statements were removed one by one",
+    "Expr": "expression statement (a debugger call): no binding", "Global": "R-GLOBAL-REMOVAL-SCOPE", "Decorator": "decorator: no binding of its own",
+    "Import": "R-IMPORT-REMOVAL-OWNER", "ImportFrom": "R-IMPORT-REMOVAL-OWNER", "ImportAlias": "R-IMPORT-REMOVAL-OWNER", "import_alike": "R-IMPORT-REMOVAL-OWNER",
+    "Assert": "no binding (walrus in an assert test aside; refactor codemods are not registered)",
+    "FormattedStringExpression": "a piece of an f-string", "Arg": "an argument", "Element": "an element",
+}
+REMOVAL_EXEMPT = {
+    "core_codemods.use_walrus_if.UseWalrusIf.leave_Assign": "the binding moves into the walrus of the following `if` (single-access case judged by libcst scope analysis)",
+    "codemodder.utils.clean_code.RemoveUnusedVariables.leave_Assign": "acts only on assignments whose names have no access in their scope",
+}
+
+
+def rule_removal_kinds(ctx, rep, rule_id="R-REMOVAL-KINDS"):
+    """Shared by C02 / C08."""
+    rep.rule(
+        rule_id,
+        "a transformer hook returns a removal sentinel (RemovalSentinel.REMOVE / RemoveFromParent()) only for node kinds whose disappearance "
+        "cannot unbind a name some remaining code reads (break / continue / pass / emptied else / debugger-call statements / decorators), or for "
+        "kinds a dedicated rule governs (imports, `global`), or in a named, confirmed exception.  Deleting a compound statement (`if`, `while`, "
+        "`with`, `try`, a function) takes with it whatever its header binds: a walrus in the test, an `as` target, the definition itself",
+        min_instances=8,
+    )
+    n = 0
+    for fn in ctx.prog.live_functions():
+        if fn.cls is None or not fn.module.name.startswith(("core_codemods.", "codemodder.codemods", "codemodder.utils.clean_code")):
+            continue
+        rets = [x for x in walk_no_nested(fn.node) if isinstance(x, ast.Return) and x.value is not None
+                and any(isinstance(y, ast.Attribute) and y.attr == "REMOVE" or isinstance(y, ast.Call) and last_attr(y.func) == "RemoveFromParent" for y in ast.walk(x.value))]
+        if not rets:
+            continue
+        # the node kind: the hook's own name, or for a helper the hooks that call it
+        kinds = set()
+        if fn.name.startswith("leave_"):
+            kinds.add(fn.name[len("leave_"):])
+        else:
+            for m in fn.cls.methods.values():
+                if m.name.startswith("leave_") and any(isinstance(c, ast.Call) and isinstance(c.func, ast.Attribute) and c.func.attr == fn.name for c in walk_no_nested(m.node)):
+                    kinds.add(m.name[len("leave_"):])
+        if not kinds:
+            continue
+        for k in sorted(kinds):
+            n += 1
+            ex = REMOVAL_EXEMPT.get(fn.qname)
+            ok = k in REMOVABLE_KINDS or ex is not None
+            rep.check(rule_id, fn.qname, fn.loc(rets[0]), ok, f"removes:{k}",
+                      f"`{unparse(rets[0])[:60]}` deletes a {k} node: that kind can carry bindings (walrus in its test, `as` targets, the definition) which "
+                      "remaining code may still read; it is not among the confirmed removable kinds", exempt=ex)
+    if n < 8:
+        raise AnalysisError(f"only {n} node-removing hooks found")
+
+
 def check(ctx, rep):
     rep.explanation = (
         "Every code template a transformer emits by name is recovered with a constant/template evaluator (f-strings, constants, "
@@ -578,6 +633,7 @@ def check(ctx, rep):
     rule_global_removal_scope(ctx, rep)
     rule_nodetype(ctx, rep)
     rule_import_flag_reaches(ctx, rep)
+    rule_removal_kinds(ctx, rep)
     rep.not_covered += [
         "scope-aware reasoning about which assignments RemoveUnusedVariables may drop (depends on libcst scope metadata)",
         "names emitted through nodes built without a string template",
